@@ -18,7 +18,7 @@ RULE = ("cases from rng(seed, 9, 0, i): pose kind = i mod 4; operands a,b,c, a p
         "by 2 pi k, huge; quaternions w<0, w=0, 180 deg, near identity; increments incl. rotational norm exactly 1); 14 relations evaluated per case, and again after the operand objects were modified in place (every 3rd case); every 16th case is an in-situ optimizer run with sampled operator "
         "observations. distinct = fingerprint of the operands; non-trivial = a and b both have non-zero translation and (SE types) non-identity rotation.")
 REQ = ["eval:" + r for r in RELATIONS if r != "from_matrix-roundtrip"] + ["eval:from_matrix-roundtrip", "class:kind:se3", "class:kind:se2", "class:q:wneg", "class:q:wzero", "class:a:nearpi_in",
-                                                                     "insitu_operator_calls_observed", "class:operands_modified_in_place", "class:increment_rotation_norm_exactly_1"]
+                                                                     "insitu_operator_calls_observed", "class:operands_modified_in_place", "class:increment_rotation_norm_exactly_1", "class:integer_dtype_increment", "class:q:single_axis"]
 PLAN = {
     "quick": {"cases": 8000, "soft_s": 60, "min_nontrivial": 2000, "require": REQ},
     "thorough": {"cases": 600000, "soft_s": 1200, "min_nontrivial": 100000, "require": REQ},
@@ -127,13 +127,22 @@ def relations(ctx, k, A, B, C, rng, maxexp, feats):
         ctx.check("identity-two-sided", type(I) is cls and M.fl(I) == R.identity(k), dict(feats, side="value"), {"identity": M.fl(I)}, case)
         pose_close(ctx, "identity-two-sided", k, A + I, a, 1 + ta, dict(feats, side="right"), case)
         pose_close(ctx, "identity-two-sided", k, I + A, a, 1 + ta, dict(feats, side="left"), case)
+        # an identity a client obtained earlier and used as a scratch pose (written in place) must not change what identity() returns afterwards
+        I[0] = 5.0
+        I[-1] = 0.25
+        I2 = cls.identity()
+        ctx.check("identity-two-sided", M.fl(I2) == R.identity(k) and I2 is not I, dict(feats, side="identity() after an earlier identity was written in place"), {"identity": M.fl(I2)}, case)
         # 7 associativity
         pose_close(ctx, "associativity", k, (A + B) + C, M.fl(A + (B + C)), 1 + ta + tb + tc, feats, case, rot_scale=2.0)
         # 8 pose (+) point
         kp = R.POINT_OF[k]
         pt, _ = gen.pose(rng, kp, maxexp)
         PT = M.mkpose(kp, pt)
-        for form, operand in (("pose-object", PT), ("ndarray", np.array(pt, dtype=float))):
+        ipt = [float(int(x)) for x in np.clip(pt, -1e6, 1e6)]
+        forms = [("pose-object", PT, pt), ("ndarray", np.array(pt, dtype=float), pt)]
+        if k in ("se2", "se3"):
+            forms.append(("ndarray-int64", np.array(ipt).astype(np.int64), ipt))  # whole-number coordinates handed over as an integer array
+        for form, operand, pt in forms:
             if k in ("r2", "r3") and form == "ndarray":
                 pass
             res = A + operand
@@ -157,6 +166,11 @@ def relations(ctx, k, A, B, C, rng, maxexp, feats):
             w_ref = math.sqrt(max(0.0, 1.0 - float(np.dot(dv[3:], dv[3:]))))
             dw = min(4 * R.EPS / max(w_ref, 1e-300), 4 * math.sqrt(R.EPS))
             bx_rot_scale = 1.0 + dw / (64 * R.EPS)
+        if k == "se2" and rng.random() < 0.2:
+            d = [float(int(np.clip(x, -1e6, 1e6))) for x in d]
+            dv = np.array(d).astype(np.int64)  # an integer-typed increment
+            bx_rot_scale = 1 + abs(d[2])
+            ctx.count("class:integer_dtype_increment")
         BX = A + dv
         ctx.check("result-type", type(BX) is cls, dict(feats, op="boxplus"), {"type": type(BX).__name__}, case)
         pose_close(ctx, "boxplus-is-oplus-of-compact", k, BX, R.box(k, a, d), 1 + ta + R.tmag(k, d), feats, dict(case, delta=d), rot_scale=bx_rot_scale)
